@@ -199,7 +199,19 @@ impl IceConn {
     /// When set, RTP latching uses SSRC match instead of source-address
     /// mismatch, allowing latch to succeed even when NAT changes the port.
     pub fn set_expected_ssrc(&self, ssrc: u32) {
-        self.expected_ssrc.store(ssrc, Ordering::Relaxed);
+        let previous = self.expected_ssrc.swap(ssrc, Ordering::Relaxed);
+        if previous != ssrc && ssrc != 0 {
+            // Probation observations made under another (or no) expected SSRC were
+            // accepted from anyone - early media arrives before the answer names the
+            // SSRC. They must not outvote the source that sends the expected one.
+            if let Some(prob) = self.probation.lock().as_mut() {
+                prob.candidates.retain(|c| c.ssrc == ssrc);
+                prob.total_packets = prob
+                    .candidates
+                    .iter()
+                    .fold(0u8, |n, c| n.saturating_add(c.packet_count));
+            }
+        }
     }
 
     pub fn set_remote_rtcp_addr(&self, addr: Option<SocketAddr>) {
